@@ -81,6 +81,26 @@ class ExecModels(Models):
                 x, y = nanos(a[0]).z(), nanos(a[1]).z()
                 return dur(mk_int(z3.If((x <= y) if which == "min" else (x >= y), x, y), "nat"))
             return f
+        # Duration arithmetic on the integer nanoseconds
+        def dur_sat_sub(c, m, a):
+            x, y = nanos(a[0]).z(), nanos(a[1]).z()
+            return dur(mk_int(z3.If(x >= y, x - y, z3.IntVal(0)), "nat"))
+        ins(r"Duration::saturating_sub", dur_sat_sub)
+
+        def dur_checked_sub(c, m, a):
+            x, y = nanos(a[0]).z(), nanos(a[1]).z()
+            if c.decide(x >= y):
+                return some(dur(mk_int(x - y, "nat")))
+            return none()
+        ins(r"Duration::checked_sub", dur_checked_sub)
+        ins(r"<Duration as Add>::add|<Duration as Add<Duration>>::add|Duration::saturating_add", lambda c, m, a: dur(mk_int(nanos(a[0]).z() + nanos(a[1]).z(), "nat")))
+
+        def dur_add_assign(c, m, a):
+            d = deref(a[0])
+            d.fields[0] = mk_int(nanos(d).z() + nanos(a[1]).z(), "nat")
+            return UNIT
+        ins(r"<Duration as AddAssign>::add_assign|<Duration as AddAssign<Duration>>::add_assign", dur_add_assign)
+        ins(r"Instant::elapsed", lambda c, m, a: dur(mk_int(z3.If(read_clock(c, "impl").z() >= deref(a[0]).fields[0].z(), c.notes["clock"][-1].z() - deref(a[0]).fields[0].z(), z3.IntVal(0)), "nat")))
         ins(r"<Duration as Ord>::min|std::cmp::min::<Duration>", dur_minmax("min"))
         ins(r"<Duration as Ord>::max|std::cmp::max::<Duration>", dur_minmax("max"))
 
